@@ -440,6 +440,18 @@ def run_check(pid, tier="quick", seed=0, workers=None, replay=None, only=None):
     if harness_errors:
         exit_code = max(exit_code, 3)
 
+    # vacuity guard: a run whose number of non-trivial states falls far below what the unchanged tree gives has not decided the property
+    # (e.g. because a change turned most configurations into explicit rejections); floors are committed, never written at run time
+    floor = None
+    try:
+        with open(os.path.join(VERIF, "nontrivial_floor.json")) as f:
+            floor = json.load(f).get(pid, {}).get(tier)
+    except FileNotFoundError:
+        pass
+    if floor is not None and not cap_hit and only is None and nontrivial < floor:
+        print(f"VACUOUS property={pid} tier={tier}: only {nontrivial} non-trivial states (floor {floor}, measured on the unchanged tree): the exploration does not decide the property")
+        exit_code = max(exit_code, 3)
+
     wall = time.time() - t0
     # evidence ---------------------------------------------------------------
     samples = []
